@@ -135,6 +135,8 @@ def run_cases(ctx, with_model=True, stop_first=False):
         dict(dev="ring", tol=1e-2, a=0.1, b=0.5, B=0.5),
         dict(dev="bar_hole", tol=1e-3, a=0.3, b=0.7, B=0.4, cur={"source": 2.0, "drain": -2.0}),
     ]
+    # the same kind of problem on a device stated in nm: the kernel weights carry a length
+    cfgs.append(dict(dev="ring", tol=1e-3, a=0.3, b=0.6, B=0.5, units="nm"))
     if not ctx.quick:
         cfgs += [dict(dev="ring", tol=1e-4, a=0.1, b=0.5, B=0.8), dict(dev="union", tol=1e-3, a=0.5, b=1.0, B=0.6), dict(dev="bar", tol=1e-2, a=1.0, b=1.0, B=0.3, cur={"source": 3.0, "drain": -3.0})]
     # history: a second screened solve on a copy that SHARES the mesh object, with other material constants
@@ -153,9 +155,10 @@ def run_cases(ctx, with_model=True, stop_first=False):
             dev.layer.thickness = prev.layer.thickness * 0.8
             ctx.count("solves_on_a_reused_mesh")
         else:
-            dev = zoo.make_device(cfg["dev"], ctx.rng, max_edge_length=1.0, lam=0.4, d=0.1)  # small Lambda: strong screening
+            ukw = dict(length_units=cfg["units"], scale={"nm": 1000.0, "mm": 1e-3}[cfg["units"]]) if cfg.get("units") else {}
+            dev = zoo.make_device(cfg["dev"], ctx.rng, max_edge_length=1.0, lam=0.4, d=0.1, **ukw)  # small Lambda: strong screening
         prev = dev
-        out = os.path.join(str(ctx.work), f"c13_{cfg['dev']}_{cfg['tol']}_{int(cfg['reuse'])}.h5")
+        out = os.path.join(str(ctx.work), f"c13_{cfg['dev']}_{cfg['tol']}_{int(cfg['reuse'])}_{cfg.get('units', 'um')}.h5")
         if os.path.exists(out):
             os.remove(out)
         opts = runs.options(solve_time=0.1, dt_init=1e-2, save_every=2, output_file=out, include_screening=True, screening_tolerance=cfg["tol"],
@@ -181,7 +184,7 @@ def run_cases(ctx, with_model=True, stop_first=False):
             sc_ = max(float(np.linalg.norm(A, axis=1).max()), 1e-300)
             mism = float(np.linalg.norm(A - ref, axis=1).max()) / sc_
             ctx.tol(f"self-consistency / tol (tol={cfg['tol']})", mism / cfg["tol"], 3.0)
-            ctx.case((cfg["dev"], cfg["tol"], cfg["reuse"], fr["step"]), nontrivial=bool(np.any(A)))
+            ctx.case((cfg["dev"], cfg["tol"], cfg["reuse"], cfg.get("units", "um"), fr["step"]), nontrivial=bool(np.any(A)))
             ctx.count("frames_checked")
             if mism > 3.0 * cfg["tol"]:
                 fail("not-self-consistent" + (":reused-mesh" if cfg["reuse"] else ""), f"{'second solve on a shared mesh with other London length/thickness, ' if cfg['reuse'] else ''}step {fr['step']}: stored A differs from (mu0/4pi) sum K a / r of the stored currents by {mism:.2e} (tolerance {cfg['tol']})", step=fr["step"], mismatch=mism)
